@@ -210,8 +210,46 @@ def _opkinds():
 _OPK = _opkinds()
 
 
+def decode_expr(data, address_size=8, offset_size=4, version=4):
+    """[(offset, opcode, (operands))].  Operands: ints (signed where the encoding is signed), DIE references as
+    stored (unit-relative for call2/call4/convert/const_type/regval_type/deref_type/..., section offset for
+    call_ref/implicit_pointer/GNU_variable_value), bytes for implicit_value blocks, const_type values and
+    the nested expression of entry_value."""
+    asz, osz, ver = address_size, offset_size, version
+    c = Cursor(data)
+    out = []
+    while c.p < c.end:
+        start = c.p
+        opc = c.u(1)
+        kinds = _OPK.get(opc, '')
+        vals = []
+        for k in kinds:
+            if k == 'A':
+                vals.append(c.u(asz))
+            elif k in '1248':
+                vals.append(c.u(int(k)))
+            elif k in 'abdh':
+                vals.append(c.s({'a': 1, 'b': 2, 'd': 4, 'h': 8}[k]))
+            elif k == 'u':
+                vals.append(c.uleb())
+            elif k == 's':
+                vals.append(c.sleb())
+            elif k == 'B':
+                vals.append(c.bytes(c.uleb()))
+            elif k == 'C':
+                vals.append(c.bytes(c.u(1)))
+            elif k == 'R':
+                vals.append(c.u(asz if ver == 2 else osz))
+        out.append((start, opc, tuple(vals)))
+    return out
+
+
 class ElfReader:
-    def __init__(self, src):
+    """src: path or bytes.  suffix='.dwo' reads the split-DWARF sections (.debug_info.dwo, ...) of a .dwo file
+    under their plain names (sections without the suffix, e.g. .symtab, are still found)."""
+
+    def __init__(self, src, suffix=''):
+        self.suffix = suffix
         self.data = src if isinstance(src, (bytes, bytearray)) else open(src, 'rb').read()
         d = self.data
         if d[:4] != b'\x7fELF' or d[4] != 2 or d[5] != 1:
@@ -258,7 +296,7 @@ class ElfReader:
 
     def section_data(self, name):
         if name not in self._cache:
-            s = self.section(name)
+            s = (self.section(name + self.suffix) if self.suffix else None) or self.section(name)
             self._cache[name] = self._raw(s) if s is not None else b''
         return self._cache[name]
 
@@ -353,7 +391,6 @@ class ElfReader:
     def _read_dies(self, u, c):
         abbrevs = {a.code: a for a in reversed(self.abbrev_table(u.abbrev_offset))}   # first definition wins
         parent = None
-        depth = 0
         while c.p < c.end:
             off = c.p
             code = c.uleb()
@@ -364,9 +401,6 @@ class ElfReader:
                     continue            # padding after the root DIE
                 parent.end_offset = c.p
                 parent = parent.parent
-                depth -= 1
-                if parent is None and depth == 0:
-                    pass
                 continue
             ab = abbrevs.get(code)
             if ab is None:
@@ -387,7 +421,6 @@ class ElfReader:
                 raise ReadError('DIE 0x%x: second root in the unit at 0x%x' % (off, u.offset))
             if ab.children:
                 parent = d
-                depth += 1
             else:
                 d.end_offset = c.p
         while parent is not None:       # unit ended inside open children lists
@@ -490,6 +523,8 @@ class ElfReader:
                 sec, at = (('.debug_loclists', 'DW_AT_loclists_base') if f == F['loclistx']
                            else ('.debug_rnglists', 'DW_AT_rnglists_base'))
                 b = base(at, None)
+                if b is None and self.suffix:        # .dwo: the offset table of the (only) contribution
+                    b = 12 if osz == 4 else 20
                 if b is None:
                     return None
                 return b + Cursor(self.section_data(sec), b + attr.value * osz).u(osz)
@@ -510,39 +545,10 @@ class ElfReader:
 
     # ---- expressions -----------------------------------------------------
     def decode_expr(self, data, unit=None, address_size=None, offset_size=None, version=None):
-        """[(offset, opcode, (operands))].  Operands: ints (signed where the encoding is signed), DIE references as
-        stored (unit-relative for call2/call4/convert/const_type/regval_type/deref_type/..., section offset for
-        call_ref/implicit_pointer/GNU_variable_value), bytes for implicit_value blocks, const_type values and
-        the nested expression of entry_value."""
-        asz = address_size if address_size is not None else unit.address_size
-        osz = offset_size if offset_size is not None else unit.offset_size
-        ver = version if version is not None else unit.version
-        c = Cursor(data)
-        out = []
-        while c.p < c.end:
-            start = c.p
-            opc = c.u(1)
-            kinds = _OPK.get(opc, '')
-            vals = []
-            for k in kinds:
-                if k == 'A':
-                    vals.append(c.u(asz))
-                elif k in '1248':
-                    vals.append(c.u(int(k)))
-                elif k in 'abdh':
-                    vals.append(c.s({'a': 1, 'b': 2, 'd': 4, 'h': 8}[k]))
-                elif k == 'u':
-                    vals.append(c.uleb())
-                elif k == 's':
-                    vals.append(c.sleb())
-                elif k == 'B':
-                    vals.append(c.bytes(c.uleb()))
-                elif k == 'C':
-                    vals.append(c.bytes(c.u(1)))
-                elif k == 'R':
-                    vals.append(c.u(asz if ver == 2 else osz))
-            out.append((start, opc, tuple(vals)))
-        return out
+        """decode_expr() with the sizes of UNIT."""
+        return decode_expr(data, address_size if address_size is not None else unit.address_size,
+                           offset_size if offset_size is not None else unit.offset_size,
+                           version if version is not None else unit.version)
 
     # ---- location and range lists ----------------------------------------
     def loclist(self, offset, unit, base=None):
@@ -595,7 +601,7 @@ class ElfReader:
                 r.entries.append(('pair', b, e, x))
                 r.ranges.append((base + b, base + e, x))
             r.end = c.p
-            return r
+            return self._trim(r, loc)
         L = {n.split('_', 2)[2]: v for n, v in _g.FAMILIES['DW_LLE' if loc else 'DW_RLE'].items() if 'GNU' not in n}
         while True:
             k = c.u(1)
@@ -647,8 +653,12 @@ class ElfReader:
             else:
                 raise ReadError('%s: unknown entry kind 0x%x at 0x%x' % (sec, k, c.p - 1))
         r.end = c.p
-        if not loc:
-            r.entries = [e[:-1] if e[-1] is None and e[0] not in ('base', 'base_addressx') else e for e in r.entries]
+        return self._trim(r, loc)
+
+    @staticmethod
+    def _trim(r, loc):
+        if not loc:                 # range lists carry no expressions
+            r.entries = [e[:-1] if e[0] not in ('base', 'base_addressx') else e for e in r.entries]
             r.ranges = [x[:2] for x in r.ranges]
         return r
 
@@ -730,19 +740,17 @@ class ElfReader:
         raise ReadError('line table: unsupported form 0x%x' % form)
 
     def file_path(self, table, index, comp_dir=b''):
-        """Full path of file INDEX the way libdw builds it (see elfgen.LineTable.path)."""
+        """Path of file INDEX the way libdw builds it (see elfgen.LineTable.path)."""
         if table.version < 5:
-            if index < 1 or index > len(table.files):
+            if index == 0:
+                return b'???'
+            if index < 0 or index > len(table.files):
                 return None
             name, di = table.files[index - 1][:2]
             d = comp_dir if di == 0 else (table.dirs[di - 1] if di <= len(table.dirs) else b'')
         else:
-            if index >= len(table.files):
+            if index < 0 or index >= len(table.files):
                 return None
             name, di = table.files[index][:2]
             d = table.dirs[di] if di < len(table.dirs) else b''
-        if name.startswith(b'/'):
-            return name
-        if not d.startswith(b'/') and comp_dir and d != comp_dir:
-            d = comp_dir + b'/' + d if d else comp_dir
-        return d + b'/' + name if d else name
+        return name if name.startswith(b'/') or not d else d + b'/' + name
